@@ -32,6 +32,7 @@ import ScalesModel.Adapter.ServerSet
 import ScalesModel.Adapter.LB
 import ScalesModel.Adapter.Resurrector
 import ScalesModel.Adapter.ResPool
+import ScalesModel.Adapter.HeapC09
 open Scales
 
 def components : List Comp := [
@@ -64,7 +65,8 @@ def components : List Comp := [
   ⟨"aperture", Scales.LB.comp6.run⟩,
   ⟨"resurrector", Scales.Res.comp.run⟩,
   ⟨"respool", Scales.Pool.comp.run⟩,
-  ⟨"lbgate", Scales.LB.compGate.run⟩
+  ⟨"lbgate", Scales.LB.compGate.run⟩,
+  ⟨"heap9", Scales.Heap.comp9.run⟩
 ]
 
 structure CaseAcc where
